@@ -119,6 +119,7 @@ func c06Property(rt *rapid.T, ev *evid.Rec, deps bool) {
 		case 0, 1, 2:
 			m.grow(m.pickSource("growsrc"), rapid.IntRange(1, 6).Draw(rt, "grown"))
 		case 3:
+			m.reconfigure()
 			if err := w.Restart(); err != nil {
 				rt.Fatalf("VERIF-INCONCLUSIVE restart: %v", err)
 			}
